@@ -9,6 +9,7 @@ import (
 	"net/url"
 	"regexp"
 	"strings"
+	"sync/atomic"
 	"time"
 
 	"github.com/google/go-tdx-guest/abi"
@@ -177,6 +178,31 @@ func runC10(r *mc.Run) {
 	})
 	r.SectionDone(mc.Section{Name: "message-mutations", Evaluations: int64(done) * 8, Exhaustive: done == len(work),
 		Note: fmt.Sprintf("%d single mutations, all %d pairs", len(muts), len(work)-len(muts))})
+	if r.Thorough() {
+		// all triples of structural mutations (three inconsistent places at once); verification entry points only at L0
+		nm := len(muts)
+		var triples int64
+		doneT := r.Parallel(nm*nm, func(idx int) {
+			i, j := idx/nm, idx%nm
+			if i >= j {
+				return
+			}
+			for k := j + 1; k < nm; k++ {
+				id := "msg/" + muts[i].name + "+" + muts[j].name + "+" + muts[k].name
+				if !r.Want(id) {
+					continue
+				}
+				q := proto.Clone(q0).(*pb.QuoteV4)
+				muts[i].apply(q)
+				muts[j].apply(q)
+				muts[k].apply(q)
+				entries(id, q, false)
+				atomic.AddInt64(&triples, 1)
+			}
+		})
+		r.SectionDone(mc.Section{Name: "message-mutations/triples", Evaluations: triples * 8, Exhaustive: doneT == nm*nm,
+			Note: fmt.Sprintf("all %d triples of the %d single mutations", triples, nm)})
+	}
 	// nil-ish messages
 	for name, q := range map[string]any{"typed-nil": (*pb.QuoteV4)(nil), "empty": &pb.QuoteV4{}, "untyped-nil": nil, "other-type": &pb.Header{}, "string": "quote"} {
 		q := q
